@@ -9,13 +9,14 @@ def build(ctx):
     E.obligations_table_distinct(ctx, 'C01')
     common.encoder_tasks(ctx, lambda m: not m.startswith('c.'))
     ctx.task('contracts.emit:task_emit_pass', 'resolve_instructions')
+    ctx.task('contracts.parse:task_parse')        # the text front end hands the encoder the operands the line names
     # the operands the source named reach the encoder: immediates are their expression's value, register aliases their constant's
     common.pass_tasks(ctx, ['resolve_immediates', 'resolve_register_aliases'])
     ctx.trust(common.TRUST_BOUNDED)
 
 
 def bounded(ctx):
-    ctx.task('bounded.tasks:encoder_text_task', 'base', ['accept', 'decode', 'size'], ['x', 'abi', 'num'])
+    ctx.task('bounded.tasks:encoder_text_task', 'base', ['accept', 'decode', 'size'], ['x', 'abi', 'num', 'const'])
 
 
 def explanation(ctx):
